@@ -5,6 +5,15 @@ import json, os, sys
 sys.path.insert(0, os.path.dirname(os.path.dirname(os.path.abspath(__file__))))
 from sa.index import Index
 ix = Index()
-sites = sorted({f.site for f in ix.all_functions()})
+import ast
+sites = {f.site for f in ix.all_functions()}
+# module-level names, so that a constant introduced later can be told apart from one the specs already name
+for rel, m in ix.modules.items():
+    for st in m.tree.body:
+        if isinstance(st, ast.Assign):
+            for t in st.targets:
+                if isinstance(t, ast.Name):
+                    sites.add('%s::=%s' % (rel, t.id))
+sites = sorted(sites)
 json.dump(sites, open(os.path.join(os.path.dirname(os.path.dirname(os.path.abspath(__file__))), 'rules', 'known_functions.json'), 'w'), indent=0)
 print(len(sites), 'functions')
